@@ -8,6 +8,9 @@ package clos
 // return-from / go marker an evaluation hands back: nothing more is evaluated
 // and the marker is the function's result.
 //@ every-function clos forward-exits
+// C05, package-wide (thorough tier): no function makes a number that existed
+// when it was entered the target of a mutating math/big method.
+//@ every-function clos operands-kept
 
 // ---------------------------------------------------------------------------
 // C12: CLOS classes.
